@@ -667,7 +667,11 @@ fn build_rows() -> Vec<Row> {
     row!("url", "Url::check_invariants", UrlGet, Cap::Full, |c, k| {
         if let Err(e) = c.url.check_invariants() {
             k.s("invariant", &e);
-            if k.strict {
+            // F-C02-1 (open, Known_file_drive): file: URLs with a drive-letter segment are not parse fixpoints
+            let c02_1 = c.url.scheme() == "file" && e.contains("&self.serialization != &other.serialization");
+            if c02_1 {
+                k.inv.get_or_insert(format!("F-C02-1:{}", e));
+            } else if k.strict {
                 k.strict_inv.get_or_insert(e);
             } else {
                 k.inv.get_or_insert(e);
@@ -1802,6 +1806,17 @@ fn run_request_pair(req: &str) -> (String, String) {
             None => ("?".into(), "unknown documented probe".into()),
         },
         "generic" => ("ok".into(), "generic probes are re-run by replay/search".into()),
+        "timing" => match timing_experiments().into_iter().find(|e| format!("timing {} fam={}", e.row, e.fam) == req) {
+            None => ("?".into(), "unknown timing experiment".into()),
+            Some(e) => {
+                if DBG {
+                    ("linear".into(), "linear".into()) // not measured in a dev-profile build
+                } else {
+                    let (line, flagged) = doubling(&e);
+                    ("linear".into(), if flagged && e.listed.is_none() { format!("SUPERLINEAR:{}", clip(&line, 200)) } else { "linear".into() })
+                }
+            }
+        },
         name => match find_row(name) {
             None => ("listed".into(), format!("no table row {}", name)),
             Some(row) => match request_input(&w) {
@@ -2044,8 +2059,10 @@ impl Col {
         if let Some(id) = out.known {
             self.add(&format!("panic-known:{}", id), 1);
         }
-        if out.inv.is_some() {
-            self.add("check_invariants-Err-after-setter", 1);
+        match &out.inv {
+            Some(e) if e.starts_with("F-C02-1:") => self.add("check_invariants-Err-known:F-C02-1", 1),
+            Some(_) => self.add("check_invariants-Err-after-setter", 1),
+            None => {}
         }
         self.record(stream, req, &out.model, &out.imp, nontrivial, &format!("{}:{}", row.kind.tag(), out.class));
     }
@@ -2459,7 +2476,24 @@ fn run_corr(args: &Args) -> Report {
     let mut col = Col { rep: Report::new(), search: false, thorough: args.tier == "thorough" };
     check_inventory(&mut col);
     run_streams(&mut col, args.seed);
-    col.rep.notes.push(format!("profile: {}; nothing is timed in corr mode", if DBG { "dev (debug assertions, overflow checks)" } else { "release" }));
+    if col.thorough && !DBG {
+        // thorough tier, release build: the correspondence of COST (DESIGN.md section 8, C04): the cost
+        // theorems / the list of timing findings predict "linear" for every experiment that is not a
+        // listed finding; a flagged unlisted experiment is a mismatch.  Never run in the quick tier.
+        let mut t = Report::new();
+        run_timing_into(&mut t, true);
+        for (req, what) in t.failures.iter() {
+            col.rep.case("timing", req, "linear", &format!("SUPERLINEAR:{}", clip(what, 200)), true, "timing:flagged-unlisted");
+        }
+        col.rep.notes.extend(t.notes);
+        for (k, v) in t.histogram.iter() {
+            *col.rep.histogram.entry(k.clone()).or_insert(0) += *v;
+        }
+        col.rep.evaluations += t.evaluations;
+        col.rep.notes.push("profile: release; thorough tier: doubling-time experiment run after the corr streams (nothing is timed in the quick tier)".into());
+    } else {
+        col.rep.notes.push(format!("profile: {}; nothing is timed in this run", if DBG { "dev (debug assertions, overflow checks)" } else { "release" }));
+    }
     col.rep
 }
 
@@ -2472,7 +2506,7 @@ fn run_search(args: &Args) -> Report {
     // 1. the differing requests
     if let Ok(txt) = std::fs::read_to_string(&args.file) {
         for l in txt.lines().filter(|l| !l.is_empty()) {
-            if l.starts_with("unlisted public fn") || l.starts_with("listed public fn") || l.starts_with("inventory") {
+            if l.starts_with("unlisted public fn") || l.starts_with("listed public fn") || l.starts_with("inventory") || l.starts_with("timing ") {
                 continue;
             }
             let (m, i) = run_request_pair(l);
